@@ -338,7 +338,10 @@ def fresh(x):
 
 def rewrite_setalias(x):
     _PUTMODE[0] = False
-    return _rewrite_setalias(expand_updates(x))
+    ex = expand_updates(x)
+    r = _rewrite_setalias(ex)
+    # the macro expansion alone must not count as a rewrite (it changes which form carries a position)
+    return x if rtext(r) == rtext(ex) else r
 
 
 def rewrite_setalias_put(x):
@@ -425,7 +428,9 @@ def _hinted(r, v):
 
 
 def rewrite_lateread(x):
-    return _rewrite_lateread(expand_updates(x))
+    ex = expand_updates(x)
+    r = _rewrite_lateread(ex)
+    return x if rtext(r) == rtext(ex) else r
 
 
 def _rewrite_lateread(x):
